@@ -2,7 +2,7 @@
 import math, struct
 from fractions import Fraction
 from .. import gen, values as VL
-from ..gen import lit, bi, raw, call, render
+from ..gen import lit, bi, raw, call, render, fundef, arg
 from ..corr import Case, monitor
 
 
@@ -64,6 +64,25 @@ def cases(rng, tier):
         s = rng.randint(-300, 300)
         want = x * 2 ** s if s >= 0 else x // (2 ** -s)
         yield Case(program=render(call(M('ㅈ'), lit(x), lit(s))), tag='shift', monitor='c17_expect', data=str(want))
+        # operands that are themselves (not yet evaluated) bitwise calls — the same operator nested in either operand, other
+        # operators nested, and a nested call arriving through a lazy parameter: an operator applied while another application
+        # of it is in progress computes the same function (seeded change S17l kept the operands of an operator in one list
+        # shared by all its applications)
+        z = rint(rng)
+        ops = {'ㄱ': lambda a, b: a & b, 'ㄷ': lambda a, b: a | b, 'ㅂ': lambda a, b: a ^ b}
+        o1, o2 = rng.choice(list(ops)), rng.choice(list(ops))
+        for oa, ob in ((o1, o1), (o1, o2)):
+            yield Case(program=render(call(M(oa), lit(x), call(M(ob), lit(y), lit(z)))), tag='nested-second', monitor='c17_expect',
+                       data=str(ops[oa](x, ops[ob](y, z))))
+            yield Case(program=render(call(M(oa), call(M(ob), lit(x), lit(y)), lit(z))), tag='nested-first', monitor='c17_expect',
+                       data=str(ops[oa](ops[ob](x, y), z)))
+            yield Case(program=render(call(fundef(call(M(oa), lit(x), arg(0))), call(M(ob), lit(y), lit(z)))), tag='nested-lazy-parameter',
+                       monitor='c17_expect', data=str(ops[oa](x, ops[ob](y, z))))
+        sh1, sh2 = rng.randint(0, 6), rng.randint(0, 40)
+        yield Case(program=render(call(M('ㅈ'), lit(x), call(M('ㅈ'), lit(sh1), lit(1)))), tag='nested-shift', monitor='c17_expect',
+                   data=str(x * 2 ** (sh1 * 2)))
+        yield Case(program=render(call(M('ㅈ'), call(M('ㅈ'), lit(x), lit(sh2)), lit(-sh2))), tag='nested-shift', monitor='c17_expect', data=str(x))
+        yield Case(program=render(call(M('ㅁ'), call(M('ㅁ'), lit(x)))), tag='nested-not', monitor='c17_expect', data=str(x))
         # roundings of a finite double, from its exact rational value
         f = rfloat(rng)
         q = Fraction(f)
